@@ -123,3 +123,11 @@ def h_history(case: int) -> bool:
                                f"{(a[i] if i < len(a) else '<end>')[:300]} | {(b[i] if i < len(b) else '<end>')[:300]}")
                 return False
         return True
+
+
+def h_session() -> bool:
+    """every case of this shard, in order, in one interpreter session (native replay of failures that need the earlier cases)"""
+    for c in range(len(CASES)):
+        if not h_history(c):
+            return False
+    return True
